@@ -25,6 +25,8 @@ def make_handler(mod):
         if kind == "run":
             trace = mod.generate(job["seed"], job["tier"], job["index"])
             res = mod.execute(trace, ctx)
+            if "executed_ops" in res:  # ops appended at run time (directed probes) become part of the explicit trace
+                trace = dict(trace, ops=res.pop("executed_ops"), dynamic=False)
             res["index"] = job["index"]
             res["seed"] = job["seed"]
             if res.get("violation") or job.get("want_trace"):
@@ -32,6 +34,7 @@ def make_handler(mod):
             return res
         if kind == "exec":
             res = mod.execute(job["trace"], ctx)
+            res.pop("executed_ops", None)
             if job.get("want_trace"):
                 res["trace"] = job["trace"]
             return res
